@@ -35,7 +35,7 @@ CONSTANTS NewLen,        \* length of the complete new body (> 0)
           NoStaleFallback,           \* a failed refresh does not fall back to the stale file
           AbortOnRefreshError        \* a failed refresh aborts the start
 
-VARIABLES prior,    \* "absent" | "fresh" | "stale" | "garbage"    (chosen in Init, then constant)
+VARIABLES prior,    \* "absent" | "fresh" | "stale" | "garbage" | "garbage_fresh"   (chosen in Init, then constant)
           server,   \* [mode, k, code]                              (chosen in Init, then constant)
           entry,    \* "startup" | "fetch"                          (chosen in Init, then constant)
           cache,    \* contents of <cache>/rink/currency.json
@@ -60,12 +60,14 @@ Old     == [kind |-> "old",     len |-> NewLen]
 Garbage == [kind |-> "garbage", len |-> 1]
 NewC    == [kind |-> "new",     len |-> NewLen]
 
+Priors == {"absent", "fresh", "stale", "garbage", "garbage_fresh"}
+\* "garbage": unreadable JSON, old enough to be refreshed; "garbage_fresh": unreadable JSON with a recent mtime
 PriorOf(p) == CASE p = "absent"  -> Absent
-                [] p = "garbage" -> Garbage
+                [] p \in {"garbage", "garbage_fresh"} -> Garbage
                 [] OTHER         -> Old
 AgeOf(p)   == CASE p = "absent" -> "none"
-                [] p = "fresh"  -> "fresh"
-                [] OTHER        -> "stale"       \* the unreadable file is old enough to be refreshed
+                [] p \in {"fresh", "garbage_fresh"} -> "fresh"
+                [] OTHER        -> "stale"
 PriorC == PriorOf(prior)
 
 Refused == [mode |-> "refused", k |-> 0, code |-> 0]
@@ -105,7 +107,7 @@ Restart(p, s, e) ==
   /\ refresh' = "none" /\ used' = "none" /\ fellback' = FALSE /\ started' = FALSE
   /\ r1' = NoR1
 
-Init == \E p \in {"absent", "fresh", "stale", "garbage"}, s \in Servers, e \in {"startup", "fetch"} :
+Init == \E p \in Priors, s \in Servers, e \in {"startup", "fetch"} :
            InitWith(p, s, e)
 
 Fixed == UNCHANGED <<prior, server, entry, run, r1>>
@@ -251,7 +253,7 @@ Spec == Init /\ [][Next]_vars
 (* Property C20 *)
 
 TypeOK ==
-  /\ prior \in {"absent", "fresh", "stale", "garbage"} /\ entry \in {"startup", "fetch"}
+  /\ prior \in Priors /\ entry \in {"startup", "fetch"}
   /\ cache.len \in 0..(IF NewLen > ErrLen THEN NewLen ELSE ErrLen)
   /\ run \in {1, 2} /\ litter \in 0..2
   /\ refresh \in {"none", "ok", "failed"} /\ used \in {"none", "old", "new"}
